@@ -21,7 +21,7 @@ CH, BT, SOL, DEPTH = "STATS_IDX_SOLVER_CHOICE_NB", "STATS_IDX_SOLVER_BACKTRACK_N
 # the level holding the ghost solution sigma (witness of 'sigma is still in the stack'), re-chosen after every iteration
 T_IT0 = "it0(stacks_top)[0]"
 DSEL = f"dom_update_stack[{T_IT0}, 0]"  # after a choice at level it0(top): the domain that was split (quantifier-free witness selection)
-INL = lambda l: f"({SS}[{l}, {DSEL}, MIN] <= sigma[{DSEL}] and sigma[{DSEL}] <= {SS}[{l}, {DSEL}, MAX])"
+INL = lambda l: f"({SS}[{l}, {DSEL}, MIN] <= trig(sigma[{DSEL}]) and trig(sigma[{DSEL}]) <= {SS}[{l}, {DSEL}, MAX])"
 LV_NEXT = f"ite(lv < {T_IT0}, lv, ite({INL(T_IT0)}, {T_IT0}, ite({INL(T_IT0 + ' + 1')}, {T_IT0} + 1, {T_IT0} + 2)))"
 SOL_HYP = f"sol() and 0 <= lv0 and lv0 <= old(stacks_top)[0] and in_box({SS0}, lv0)"
 
@@ -67,10 +67,12 @@ solve_one_contract("bc", "nucs/solvers/bound_consistency_algorithm.py::bound_con
 # semantic variant: no solution of the stack is lost by a search (ghost solution sigma, ghost level witness lv); heavier queries, own budget
 solve_one_contract("sem", "iface:ConsistencyAlg",
     [("C17.backtracks", f"{dstat(BT)} >= bt"), ("C02.remaining", f"implies({SOL_HYP}, 0 <= lv and lv <= stacks_top[0] and in_box({SS}, lv))")],
-    [("C02.no_loss", f"implies({SOL_HYP}, result is not None and 0 <= lv and lv <= stacks_top[0] and in_box({SS}, lv))")], timeout_ms=400000,
+    [("C02.no_loss", f"implies({SOL_HYP}, result is not None and 0 <= lv and lv <= stacks_top[0] and in_box({SS}, lv))"),
+     ("C02.none_means_empty", f"implies(result is None, not ({SOL_HYP}))")], timeout_ms=400000,
     step_ensures=[
         ("C02.step_refuted", f"implies(({SOL_HYP}) and status == PROBLEM_INCONSISTENT, it0(lv) < {T_IT0})"),
         ("C02.step_lower", f"implies(({SOL_HYP}) and it0(lv) < {T_IT0}, lv == it0(lv) and in_box({SS}, it0(lv)))"),
+        ("C02.step_cover", f"implies(({SOL_HYP}) and status == PROBLEM_UNBOUND and it0(lv) == {T_IT0}, {INL(T_IT0)} or {INL(T_IT0 + ' + 1')} or ({T_IT0} + 2 <= stacks_top[0] and {INL(T_IT0 + ' + 2')}))"),
         ("C02.step_range", f"implies({SOL_HYP}, 0 <= lv and lv <= stacks_top[0])"),
     ])
 REG.contracts["nucs/solvers/backtrack_solver.py::solve_one#sem"].props = ["C02", "C03", "C10"]
